@@ -412,6 +412,16 @@ func (l *NDNLPLinkService) reassemblePacket(
 	fragIndex uint64,
 	fragCount uint64,
 ) enc.Wire {
+	// FragIndex and FragCount come from the wire: never index or allocate by them unchecked
+	if fragCount == 0 || fragCount > defn.MaxNDNPacketSize || fragIndex >= fragCount {
+		core.LogWarn(l, "Received fragment with invalid FragIndex/FragCount - DROP")
+		return nil
+	}
+	if stored, ok := l.partialMessageStore[baseSequence]; ok && uint64(len(stored)) != fragCount {
+		core.LogWarn(l, "Received fragment with inconsistent FragCount - DROP")
+		return nil
+	}
+
 	_, hasSequence := l.partialMessageStore[baseSequence]
 	if !hasSequence {
 		// Create map entry
